@@ -148,7 +148,9 @@ contract("JobQueue.process_queue", file=F,
              "implies(old(len(self._queued_jobs)) == 0, nout(self) <= old(nout(self)))",
          ],
          raises={"ExecutionError": {"ensures": ["self._outstanding_jobs == old(self._outstanding_jobs) and self._queued_jobs == old(self._queued_jobs)",
-                                                "ghost.runs == old(ghost.runs)"], "frame": False}},
+                                                "ghost.runs == old(ghost.runs)"], "frame": False},
+                 # any other failure while polling (C11): with an empty queue nothing is ever started
+                 "AnyException": {"ensures": ["implies(old(len(self._queued_jobs)) == 0, ghost.runs == old(ghost.runs))"], "frame": False}},
          modifies=["self._outstanding_jobs", "self._queued_jobs", "self._num_jobs", "self._num_completed", "self._last_monitor_time", "ghost.runs",
                    "AsyncJob.g_done", "AsyncJob.return_code", "AsyncJob.g_launched", "AsyncJob.g_canceled", "AsyncJob.blocking",
                    "HpcStatusCollector._statuses", "HpcStatusCollector._last_poll_time", "ghost.last_status", "ghost.collected", "ghost.collected_failed"])
